@@ -3,7 +3,8 @@
       primitives, every callback policy, every fuel and every root: same invocations of the callback
       with the same arguments in the same order, same returned error.
    2. the code as pinned deviates: witnesses. *)
-From Avfs Require Import Base PathModel MemFS Walk.
+From Coq Require Import Sorting.Permutation.
+From Avfs Require Import Base PathModel MemFS Walk ReadDirProofs.
 Set Implicit Arguments.
 
 Section WalkEq.
@@ -154,3 +155,13 @@ Section WalkTransfer.
     rewrite go_walk_rec_ext. reflexivity.
   Qed.
 End WalkTransfer.
+
+(* ---- the walk does not depend on the order in which the files of the base list a directory ---------- *)
+Theorem walk_any_order (E X : Type) (P : prims E) (raw raw' : str -> list dent * option E) (pi : policy E X) :
+  (forall p, Permutation (fst (raw p)) (fst (raw' p)) /\ snd (raw p) = snd (raw' p) /\ NoDup (map (@de_name) (fst (raw p)))) ->
+  forall fuel root,
+  walk_dir (with_file_listing P raw) pi fuel root = go_walk_dir (with_file_listing P raw') pi fuel root.
+Proof.
+  intros H fuel root. apply walk_transfer; [reflexivity|].
+  intros p. cbn [with_file_listing p_read_dir]. destruct (H p) as (Hp & He & Hn). apply vfs_read_dir_any_order; assumption.
+Qed.
